@@ -1242,7 +1242,11 @@ returnVal.option() ?: return null
                                 ),
                             ..
                         }) => self.formatter.fmt_primitive_as_kt(*prim),
-                        _ => panic!("index type must be an integer type"),
+                        _ => {
+                            self.errors
+                                .push_error("index type must be an integer type".into());
+                            "Int"
+                        }
                     };
                     special_methods.indexer_type = Some(IndexerType {
                         index_type: index_type.into(),
